@@ -10,8 +10,9 @@
 (*      only such names in the manifests it issues.                                                 *)
 (*                                                                                                  *)
 (* An observation of one fetch: the hops configured for the case (a sequence, in the order the hints *)
-(* were ranked; each hop = [path, resp, dig, hits] with dig = SHA-256 of the bytes that endpoint      *)
-(* returns, "" if it returns none; hits = contacts seen by the endpoint, -1 unknown), the digest      *)
+(* were ranked; each hop = [path, resp, dig, hits, order] with dig = SHA-256 of the bytes that        *)
+(* endpoint returns, "" if it returns none; hits = connections the endpoint saw during the command;   *)
+(* order = position of its last connection among all connections of the command), the digest          *)
 (* `want` of the manifest, the digests of the files that appeared, the exit code.  Digest equality    *)
 (* stands for byte equality (crypto::Sha256 is bound to the TLA+ reference by C08).                   *)
 (* The contract does not fix the order in which paths are tried, nor that a later path is tried      *)
@@ -37,10 +38,14 @@ Eligible(flags, p) == CASE flags = "transport" -> p \in {"transport", "relay"}
 
 FirstIdx(chain, P(_)) == CHOOSE i \in DOMAIN chain : P(chain[i]) /\ \A j \in DOMAIN chain : P(chain[j]) => i <= j
 
-\* which hostile hop a mismatching file is blamed on: the first one whose bytes are the file's bytes
+\* which hostile hop a mismatching file is blamed on: among the hops returning exactly these bytes the one contacted
+\* last (the command stops after writing); the first such hop if none of them saw a connection
 Blame(chain, want, d) ==
-    LET Is(h) == Bad(h, want) /\ h.dig = d
-    IN  IF \E h \in Hops(chain) : Is(h) THEN chain[FirstIdx(chain, Is)].path ELSE "other"
+    LET Is(h)   == Bad(h, want) /\ h.dig = d
+        Hit(h)  == Is(h) /\ h.hits > 0
+    IN  IF \E h \in Hops(chain) : Hit(h)
+        THEN (CHOOSE h \in Hops(chain) : Hit(h) /\ \A g \in Hops(chain) : Hit(g) => g.order <= h.order).path
+        ELSE IF \E h \in Hops(chain) : Is(h) THEN chain[FirstIdx(chain, Is)].path ELSE "other"
 
 \* ---- C30 ------------------------------------------------------------------------------------------
 \* digs: set of digests of the files that appeared during the command
